@@ -163,12 +163,124 @@ def classify(info, out):
             f"job(s) {lost} submitted but never reported (left in {w}; {state})")
 
 
+ARR_KEYS = ["aws_batch", "k8s", "gcp_batch"]
+# The interleaving of Proofs/ArrCounterInv.v (witness_counter): job 0 is being accounted for
+# (num_pending read, not stored) when job 1 is added; then job 0 completes and the monitor leaves.
+ARR_WITNESS = ["S", "A0>len", "S", "A0", "M0*"]
+
+
+def execute_arr(key, info, cnt, njobs, kind, script, rng=None, max_random=0, force=True):
+    """Arraying ON (min_array_size > 1, every description immediately stale): scheduler thread S, arrayer
+    thread(s) A*, monitor thread(s) M*.  Scheduling points: every acquisition of arrayer._lock, the
+    arrayer's idle loop, the monitor's guard / snapshot / pop lines and - when the decrement of
+    num_pending is not under the lock - the len(jobs) call inside that statement.
+    script items: "T" (one step), "T>kind" (step T until it is paused at a point of that kind),
+    "T*" (run T until done; a blocked join is served by finishing the arrayer threads first)."""
+    ainfo = dict(info, arr=cnt)
+    out = Outcome(key, njobs, kind, [])
+    out.counter_bad = None
+    run = D.Run(key, ainfo, REPO, njobs)
+    try:
+        def live(name):
+            return name in run.det.recs and run.det.recs[name].status != "done"
+
+        def check_counter(o):
+            # locked discipline: whenever no arrayer thread is between pop and decrement, the counter is exact
+            if cnt["locked"] and out.counter_bad is None:
+                idle = all(r.status == "done" or (r.pos and r.pos[0] == "line" and r.pos[1] in cnt["lines"]["idle"])
+                           for n, r in run.det.recs.items() if n[0] == "A")
+                if idle and o["num_pending"] != len(o["held"]):
+                    out.counter_bad = (list(out.sched), o)
+
+        def do(name):
+            status, o = run.step(name)
+            out.history.append((name, status, o))
+            out.sched.append(name)
+            check_counter(o)
+            if status == "blocked" and force:
+                # a monitor is inside stop() -> arrayer.stop() -> join: finish the arrayer threads, then it
+                for a in [n for n in run.threads() if n[0] == "A"]:
+                    for _ in range(40):
+                        if not live(a):
+                            break
+                        do(a)
+                for _ in range(10):
+                    if not live(name):
+                        break
+                    st2, o2 = run.step(name)
+                    out.history.append((name, st2, o2))
+                    out.sched.append(name)
+            return status
+        for item in script:
+            if item.endswith("*"):
+                n = item[:-1]
+                for _ in range(60):
+                    if not live(n):
+                        break
+                    do(n)
+            elif ">" in item:
+                n, want = item.split(">")
+                for _ in range(40):
+                    if not live(n):
+                        break
+                    do(n)
+                    if run.det.recs[n].pos and run.det.recs[n].pos[0] == want:
+                        break
+            elif live(item):
+                do(item)
+        cur = None
+        for _ in range(max_random):
+            lv = run.threads()
+            if not lv:
+                break
+            if cur not in lv or rng.random() < 0.4:
+                cur = rng.choice(lv)
+            do(cur)
+        fuel = 900
+        while fuel > 0 and run.threads():       # fair finish: round robin, scheduler thread first
+            for n in run.threads():
+                fuel -= 1
+                if live(n):
+                    do(n)
+        out.done = run.done()
+        out.final = run.ad.observe()
+    except Exception as e:  # noqa: BLE001
+        out.error = repr(e)
+        out.final = run.ad.observe() if run.ad.ex is not None else None
+    finally:
+        run.close()
+    return out
+
+
+def classify_arr(info, out):
+    cls = info["cls"]
+    o = out.final
+    if out.error:
+        return f"{cls}:harness-error:arrayer-mode", f"execution under the deterministic scheduler failed: {out.error}"
+    rep = o["reported"]
+    if len(set(rep)) != len(rep):
+        return f"{cls}:reported-twice", f"a job was reported to the scheduler twice: {rep}"
+    if o["err"]:
+        return f"{cls}:monitor-error", "a thread raised and called reject_job(None, error)"
+    lost = [j for j in range(out.njobs) if j not in rep]
+    if not lost or not out.done:
+        return None     # undecided executions (fuel) are not findings
+    if o["num_pending"] != len(o["held"]):
+        return (f"{cls}:lost-job:stuck-in-arrayer:num_pending-lost-update",
+                f"job(s) {lost} submitted but never reported: arrayer.num_pending == {o['num_pending']} while the "
+                f"arrayer still holds {o['held']} (an add_job() landed between the read and the store of "
+                f"`num_pending -= len(jobs)`); the monitor saw nothing pending, stopped the arrayer and exited")
+    return (f"{cls}:lost-job:arrayer-mode", f"job(s) {lost} submitted but never reported with job arraying on; final {o}")
+
+
 class Check(PropertyCheck):
     id = "C10"
     module = "Props.C10"
     theorems = ["C10_refuted_docker", "C10_refuted_aws_batch", "C10_refuted_k8s", "C10_refuted_gcp_batch",
                 "C10_refuted_aws_glue", "C10_refuted_aws_glue_single", "C10_loses_refutes",
-                "C10_holds_fixed", "C10_fixed_bounded", "C10_fixed_progress", "C10_quiescent_terminal"]
+                "C10_holds_fixed", "C10_fixed_bounded", "C10_fixed_progress", "C10_quiescent_terminal",
+                "C10_counter_exact", "C10_counter_exit_safe", "C10_counter_refuted_unlocked",
+                "C10_counter_locked_never_loses"]
     extra_modules = ["Model.Monitor"]
     allowed_axioms = []
     section_premises = []
@@ -176,8 +288,11 @@ class Check(PropertyCheck):
         "granularity: threads are preempted only at the marked source lines (reads/writes of the running flag and "
         "of the pending collections, thread creation, join test, thread return) - line-level, not bytecode-level; "
         "the refutations need no finer preemption, the fixed-variant theorem is about critical sections",
-        "job arraying disabled (min_array_size = 0) so that submission inserts into the pending map in the "
-        "submitting thread (two threads, as in the property text); arrayer.num_pending is then always 0",
+        "protocol model (Model/Monitor.v): job arraying disabled (min_array_size = 0) so that submission inserts into "
+        "the pending map in the submitting thread; arrayer.num_pending is then always 0. The counter the monitor guard "
+        "reads with arraying on is modelled separately (Model/ArrCounter.v: one JobDescription, one arrayer thread, "
+        "the monitor's exit is one step) and exercised on the real classes with arraying on; there a monitor's way "
+        "out is not preempted, so the known monitor-exit race cannot occur and every loss has another cause",
         "the cloud / container API is an in-process fake in which every polled job has succeeded; "
         "parse_job_result is faked to return a result",
         "the scheduler thread only submits (no external stop() while jobs are outstanding)",
@@ -251,6 +366,25 @@ class Check(PropertyCheck):
         self.outcomes = outs
         return outs
 
+    def arr_executions(self):
+        if getattr(self, "arr_outs", None) is not None:
+            return self.arr_outs
+        cnt = self.info["_counter"]
+        outs = []
+        nrand = 12 if self.tier == "quick" else 200
+        for key in ARR_KEYS:
+            info = self.info[key]
+            if info["locked"]:
+                continue
+            outs.append(execute_arr(key, info, cnt, 2, "arr-witness", ARR_WITNESS))
+            for n in (1, 2, 3):
+                outs.append(execute_arr(key, info, cnt, n, "arr-fair", []))
+            for i in range(nrand):
+                outs.append(execute_arr(key, info, cnt, self.rng.choice([2, 2, 3]), "arr-random", [], rng=self.rng,
+                                        max_random=self.rng.choice([8, 20, 40])))
+        self.arr_outs = outs
+        return outs
+
     # ------------------------------------------------------------------ correspond
     def correspond(self):
         if self.info is None:
@@ -309,6 +443,34 @@ class Check(PropertyCheck):
                 self.findings.append(Finding(key, what, {"kind": "schedule", "executor": o.key, "njobs": o.njobs,
                                                          "schedule": o.sched, "schedule_kind": o.kind,
                                                          "final": o.final, "expect": key}))
+        # ---- job arraying on: the counter read by the monitor guard
+        cnt = self.info["_counter"]
+        arr = self.arr_executions()
+        for o in arr:
+            n += 1
+            info = self.info[o.key]
+            c = classify_arr(info, o)
+            self.stat("oracle_arrayer_mode", ("lost" if c and ":lost-job" in c[0] else "other") if c else
+                      ("all-reported" if o.done else "undecided(fuel)"))
+            self.stat("arrayer_schedule_kind", o.kind)
+            self.count((o.key, "arr", o.njobs, tuple(o.sched)))
+            if c and c[0] not in seen:
+                seen.add(c[0])
+                self.findings.append(Finding(c[0], f"{info['cls']} ({info['file']} + redun/job_array.py): {c[1]}; e.g. "
+                                             f"{o.njobs} job(s), thread schedule {' '.join(o.sched)}",
+                                             {"kind": "arr-schedule", "executor": o.key, "njobs": o.njobs,
+                                              "schedule": o.sched, "final": o.final, "expect": c[0]}))
+        if cnt["locked"]:
+            bad = [o for o in arr if o.counter_bad]
+            self.ob("correspondence", f"real JobArrayer: num_pending == number of jobs held whenever the arrayer thread is "
+                    f"idle (model invariant C10_counter_exact) at every step of {len(arr)} executions with arraying on",
+                    not bad, "; ".join(f"{o.key} after {' '.join(o.counter_bad[0])}: {o.counter_bad[1]}" for o in bad[:3]))
+        else:
+            wit = [o for o in arr if o.kind == "arr-witness"]
+            hit = [o for o in wit if (classify_arr(self.info[o.key], o) or ("",))[0].endswith("num_pending-lost-update")]
+            self.ob("correspondence", "the witness of C10_counter_refuted_unlocked (lost update of num_pending) reproduces on "
+                    "the real classes", len(hit) == len(wit) and bool(wit),
+                    "; ".join(f"{o.key}: final {o.final} error {o.error}" for o in wit if o not in hit))
         self.ob("oracle", f"implementation oracle (every submitted job reported exactly once at quiescence) ran on "
                 f"{n} executions of the real executor classes", True)
 
@@ -337,6 +499,15 @@ class Check(PropertyCheck):
             o = execute(r["executor"], info[r["executor"]], r["njobs"], r.get("schedule_kind", "replay"), r["schedule"])
             c = classify(info[r["executor"]], o)
             print("replay:", r["executor"], "jobs", r["njobs"], "schedule", " ".join(o.sched))
+            print("replay: final state", o.final, "all threads finished:", o.done)
+            print("replay:", f"still fails: {c[0]} - {c[1]}" if c else "property holds on this schedule now")
+            return 1 if c else 0
+        if r.get("kind") == "arr-schedule":
+            _, info = tr_monitor.translate()
+            o = execute_arr(r["executor"], info[r["executor"]], info["_counter"], r["njobs"], "replay", r["schedule"],
+                            force=False)
+            c = classify_arr(info[r["executor"]], o)
+            print("replay:", r["executor"], "(job arraying on) jobs", r["njobs"], "schedule", " ".join(o.sched))
             print("replay: final state", o.final, "all threads finished:", o.done)
             print("replay:", f"still fails: {c[0]} - {c[1]}" if c else "property holds on this schedule now")
             return 1 if c else 0
